@@ -78,6 +78,46 @@ def find_stmt_marker(text, prefix, nth, what):
         raise Undecided("lost anchor: %s: statement starting with %r #%d not found" % (what, prefix, nth))
     return pos[nth]
 
+SHAPES_PATH = os.path.join(VERIF, 'specs', 'baseline_shapes.json')
+_shapes = None
+REANCHORED = []
+
+def shapes():
+    global _shapes
+    if _shapes is None:
+        try:
+            with open(SHAPES_PATH) as f:
+                _shapes = json.load(f)
+        except Exception:
+            _shapes = {}
+    return _shapes
+
+def markers_of(text):
+    return [m.group(1) for m in re.finditer(r'/\*@[SM]:(.*?)@\*/', text)]
+
+def fallback_anchor(text, what, prefix, nth):
+    """the anchored statement no longer exists (deleted or reshaped): attach the hint before the next statement of the
+    baseline statement sequence that still exists, else at the end of the body"""
+    base = shapes().get(what)
+    if not base:
+        return None
+    idxs = [i for i, t in enumerate(base) if t.startswith(prefix)]
+    if not idxs:
+        return None
+    k = idxs[0] if nth is None else (idxs[nth] if nth < len(idxs) else None)
+    if k is None:
+        return None
+    cur = markers_of(text)
+    for t in base[k + 1:]:
+        if cur.count(t) == 1 and base.count(t) == 1:
+            p = text.find('/*@S:%s@*/' % t)
+            if p < 0:
+                p = text.find('/*@M:%s@*/' % t)
+            if p >= 0:
+                return p
+    p = text.find('/*@END@*/')
+    return p if p >= 0 else None
+
 def weave(item, ext):
     text = ext['text']
     what = "%s :: %s" % (item.file, item.sel)
@@ -114,7 +154,13 @@ def weave(item, ext):
             text = text.replace(mk, ' ' + body.strip() + ' ', 1)
         elif kind == 'at':
             prefix, nth = arg
-            p = find_stmt_marker(text, prefix, nth, what)
+            try:
+                p = find_stmt_marker(text, prefix, nth, what)
+            except Undecided:
+                p = fallback_anchor(text, what, prefix, nth)
+                if p is None:
+                    raise
+                REANCHORED.append("%s: hint anchored at %r re-attached to the next surviving statement" % (what, prefix))
             text = text[:p] + '\n' + body + '\n' + text[p:]
     return text
 
@@ -135,6 +181,7 @@ def assemble(unit_names, workdir, repo=None):
     units = vspec.load_all(os.path.join(VERIF, 'specs', 'units'))
     order = closure(units, unit_names)
     ext = run_vx(order, units, workdir)
+    del REANCHORED[:]
     lines = []
     linemap = []   # (first_line, last_line, unit, item-or-None description)
     functions = []
@@ -190,7 +237,13 @@ def assemble(unit_names, workdir, repo=None):
     path = os.path.join(workdir, 'gen.rs')
     with open(path, 'w') as f:
         f.write("\n".join(lines))
-    meta = {"units": order, "linemap": linemap, "items": functions, "path": path}
+    shape_now = {}
+    for un in order:
+        for e in units[un].entries:
+            if isinstance(e, vspec.Item):
+                shape_now["%s :: %s" % (e.file, e.sel)] = markers_of(ext[id(e)]['text'])
+    meta = {"units": order, "linemap": linemap, "items": functions, "path": path, "shapes": shape_now,
+            "reanchored": list(REANCHORED)}
     return path, meta
 
 if __name__ == '__main__':
